@@ -93,7 +93,11 @@ func (core *JApiCore) setPathVariablesToCatalog() *jerr.JApiError {
 					}
 				}
 				if b.Len() != 0 {
-					hi.SetPathVariables(b.Build())
+					pv, err := b.Build()
+					if err != nil {
+						return v, core.pathVariablesError(err)
+					}
+					hi.SetPathVariables(pv)
 				}
 			}
 			return v, nil
@@ -104,6 +108,17 @@ func (core *JApiCore) setPathVariablesToCatalog() *jerr.JApiError {
 	}
 
 	return nil
+}
+
+// pathVariablesError locates the error of building the path variables on the user type which caused it.
+func (core *JApiCore) pathVariablesError(err error) *jerr.JApiError {
+	var te catalog.PathVariableTypeError
+	if errors.As(err, &te) {
+		if d := core.rawUserTypes.GetValue(te.TypeName); d != nil {
+			return d.BodyError(fmt.Sprintf("the user type %q cannot be used for a path variable", te.TypeName))
+		}
+	}
+	return core.japiError(jerr.RuntimeFailure, 0)
 }
 
 func (core *JApiCore) checkPathSchema(s *jschema.JSchema) error {
